@@ -1,6 +1,9 @@
 package ssaexec
 
 import (
+	"os"
+	"sort"
+
 	"golang.org/x/tools/go/ssa"
 
 	"gosmt/smt"
@@ -13,49 +16,92 @@ type specWrite struct {
 	old Value
 }
 
-// tryIfConv merges a side-effect-free triangle or diamond below a symbolic
-// branch into ite terms at the join block instead of forking the path.
+// findJoin returns the block where the two successors of an If reconverge:
+// the common reachable block from which every other common reachable block
+// is reachable (within a small region), or nil.
+func findJoin(a, t, f *ssa.BasicBlock) *ssa.BasicBlock {
+	const limit = 24
+	// blocks that dominate the branch (headers of enclosing loops, the branch
+	// itself) end the region: they are reached but not expanded
+	reach := func(b *ssa.BasicBlock) map[*ssa.BasicBlock]bool {
+		seen := map[*ssa.BasicBlock]bool{}
+		work := []*ssa.BasicBlock{b}
+		for len(work) > 0 && len(seen) < limit {
+			x := work[len(work)-1]
+			work = work[:len(work)-1]
+			if seen[x] {
+				continue
+			}
+			seen[x] = true
+			if x.Dominates(a) {
+				continue
+			}
+			work = append(work, x.Succs...)
+		}
+		return seen
+	}
+	rt, rf := reach(t), reach(f)
+	var common []*ssa.BasicBlock
+	for b := range rt {
+		if rf[b] {
+			common = append(common, b)
+		}
+	}
+	sort.Slice(common, func(i, j int) bool { return common[i].Index < common[j].Index })
+	var found *ssa.BasicBlock
+	for _, c := range common {
+		rc := reach(c)
+		ok := true
+		for _, o := range common {
+			if !rc[o] {
+				ok = false
+				break
+			}
+		}
+		if ok {
+			if found != nil {
+				return nil // ambiguous
+			}
+			found = c
+		}
+	}
+	return found
+}
+
+// tryIfConv merges the region between a symbolic branch and its join block
+// into ite terms instead of forking the path. Each side may contain
+// straight-line blocks, nested convertible branches, calls to merged pure
+// callees, and guarded stores of scalars; a side that returns, panics,
+// needs a real fork or creates harness inputs aborts the conversion (memory
+// is restored and the caller forks as usual).
 func (x *Exec) tryIfConv(fr *frame, in *ssa.If, cond *smt.Term) bool {
 	a := fr.block
 	t, f := a.Succs[0], a.Succs[1]
-	var join *ssa.BasicBlock
-	var sideT, sideF *ssa.BasicBlock // nil = edge goes straight to join
-	single := func(b *ssa.BasicBlock) bool { return len(b.Preds) == 1 && len(b.Succs) == 1 }
-	switch {
-	case single(t) && t.Succs[0] == f && len(f.Preds) == 2:
-		join, sideT = f, t
-	case single(f) && f.Succs[0] == t && len(t.Preds) == 2:
-		join, sideF = t, f
-	case single(t) && single(f) && t.Succs[0] == f.Succs[0] && len(t.Succs[0].Preds) == 2:
-		join, sideT, sideF = t.Succs[0], t, f
-	default:
+	join := findJoin(a, t, f)
+	if join == nil || join == a {
 		return false
 	}
-	for _, b := range []*ssa.BasicBlock{sideT, sideF} {
-		if b == nil {
-			continue
-		}
-		for _, ins := range b.Instrs {
-			switch ins.(type) {
-			case *ssa.BinOp, *ssa.UnOp, *ssa.Call, *ssa.Convert, *ssa.ChangeType, *ssa.ChangeInterface, *ssa.MakeInterface,
-				*ssa.Extract, *ssa.Field, *ssa.FieldAddr, *ssa.Index, *ssa.IndexAddr, *ssa.Slice, *ssa.Jump, *ssa.DebugRef, *ssa.Alloc, *ssa.Store:
-			default:
-				return false
-			}
-		}
+	if os.Getenv("GOSMT_NOLOOPJOIN") != "" && join.Index <= a.Index {
+		return false
 	}
+	// loops: the join must not lead back to the branch before leaving the region
 	pcLen := len(x.pc)
 	nin := len(x.inputs)
 	nfind := len(x.findings)
 	stackLen := len(x.stack)
-	ok := true
 	logBase := len(x.specLog)
-	// final values written by each side (cells restored to their old value in between)
-	type written struct {
-		old Value
-		t   Value
-		f   Value
+	savedPrev := fr.prev
+
+	var phis []*ssa.Phi
+	for _, ins := range join.Instrs {
+		phi, isPhi := ins.(*ssa.Phi)
+		if !isPhi {
+			break
+		}
+		phis = append(phis, phi)
 	}
+
+	type written struct{ old, t, f Value }
 	touched := map[*Cell]*written{}
 	var order []*Cell
 	collect := func(isT bool) {
@@ -74,7 +120,6 @@ func (x *Exec) tryIfConv(fr *frame, in *ssa.If, cond *smt.Term) bool {
 				e.f = w.c.V
 			}
 		}
-		// restore (oldest entry last so the original value wins)
 		for i := len(x.specLog) - 1; i >= logBase; i-- {
 			w := x.specLog[i]
 			w.c.V = w.old
@@ -87,11 +132,16 @@ func (x *Exec) tryIfConv(fr *frame, in *ssa.If, cond *smt.Term) bool {
 			x.specLog[i].c.V = x.specLog[i].old
 		}
 		x.specLog = x.specLog[:logBase]
+		fr.block = a
+		fr.prev = savedPrev
+		fr.skipPhis = false
+		x.pc = x.pc[:pcLen]
+		x.stack = x.stack[:stackLen]
 	}
-	runSide := func(b *ssa.BasicBlock, c *smt.Term) {
-		if b == nil || !ok {
-			return
-		}
+
+	// runSide executes from start until the join is reached and returns the
+	// values of the join's phis as seen from this side.
+	runSide := func(start *ssa.BasicBlock, c *smt.Term) (vals []Value, ok bool) {
 		x.pc = append(x.pc[:pcLen], c)
 		x.spec++
 		x.specMark = append(x.specMark, x.ncell)
@@ -109,95 +159,166 @@ func (x *Exec) tryIfConv(fr *frame, in *ssa.If, cond *smt.Term) bool {
 				}
 			}
 		}()
-		saved := fr.block
-		fr.block = b
-		for _, ins := range b.Instrs {
-			if _, isJ := ins.(*ssa.Jump); isJ {
-				break
+		prev, cur := a, start
+		fr.skipPhis = false
+		visited := map[*ssa.BasicBlock]bool{}
+		for steps := 0; cur != join; steps++ {
+			if steps > 16 || visited[cur] || cur == a || (os.Getenv("GOSMT_NONEST") != "" && steps > 0) {
+				return nil, false
 			}
-			x.steps++
-			x.visit(fr, ins)
+			visited[cur] = true
+			fr.prev, fr.block = prev, cur
+			var term ssa.Instruction
+			for _, ins := range cur.Instrs {
+				if fr.skipPhis {
+					if _, isPhi := ins.(*ssa.Phi); isPhi {
+						continue
+					}
+					fr.skipPhis = false
+				}
+				switch ins.(type) {
+				case *ssa.Jump, *ssa.If:
+					term = ins
+				case *ssa.Return, *ssa.Panic, *ssa.RunDefers, *ssa.Defer, *ssa.Go, *ssa.Send, *ssa.Select, *ssa.MapUpdate, *ssa.Next, *ssa.Range:
+					return nil, false
+				default:
+					x.steps++
+					x.visit(fr, ins)
+				}
+				if term != nil {
+					break
+				}
+			}
+			fr.skipPhis = false
+			switch tm := term.(type) {
+			case *ssa.Jump:
+				prev, cur = cur, cur.Succs[0]
+			case *ssa.If:
+				cv := x.get(fr, tm.Cond).(*smt.Term)
+				if cv.IsConst() {
+					prev = cur
+					if cv.U == 1 {
+						cur = cur.Succs[0]
+					} else {
+						cur = cur.Succs[1]
+					}
+					continue
+				}
+				inner := cur
+				fr.block = inner
+				if !x.tryIfConv(fr, tm, cv) {
+					return nil, false
+				}
+				// the nested conversion left fr.block at its join with the phis computed
+				prev, cur = inner, fr.block
+				if cur == join {
+					vals = make([]Value, len(phis))
+					for i, p := range phis {
+						vals[i] = fr.env[p]
+					}
+					fr.skipPhis = false
+					return vals, true
+				}
+			default:
+				return nil, false
+			}
 		}
-		fr.block = saved
+		vals = make([]Value, len(phis))
+		for i, p := range phis {
+			for k, pred := range join.Preds {
+				if pred == prev {
+					vals[i] = x.get(fr, p.Edges[k])
+					break
+				}
+			}
+		}
+		return vals, true
 	}
-	runSide(sideT, cond)
+
+	direct := func() []Value {
+		vals := make([]Value, len(phis))
+		for i, p := range phis {
+			for k, pred := range join.Preds {
+				if pred == a {
+					vals[i] = x.get(fr, p.Edges[k])
+				}
+			}
+		}
+		return vals
+	}
+	var vt, vf []Value
+	ok := true
+	if t == join {
+		vt = direct()
+	} else {
+		vt, ok = runSide(t, cond)
+		if ok {
+			collect(true)
+		}
+	}
 	if ok {
-		collect(true)
+		if f == join {
+			vf = direct()
+		} else {
+			vf, ok = runSide(f, x.C.Not(cond))
+			if ok {
+				collect(false)
+			}
+		}
 	}
-	runSide(sideF, x.C.Not(cond))
-	if ok {
-		collect(false)
-	}
-	fr.block = a
 	if !ok || len(x.inputs) != nin || len(x.findings) != nfind {
 		restore()
 		x.inputs = x.inputs[:nin]
 		return false
 	}
-	predT, predF := a, a
-	if sideT != nil {
-		predT = sideT
+	if os.Getenv("GOSMT_FORCEABORT") != "" {
+		restore()
+		return false
 	}
-	if sideF != nil {
-		predF = sideF
-	}
-	// compute all phis first; commit only if every one merges
-	type pv struct {
-		phi *ssa.Phi
-		v   Value
-	}
-	var vals []pv
-	for _, ins := range join.Instrs {
-		phi, isPhi := ins.(*ssa.Phi)
-		if !isPhi {
-			break
-		}
-		var vt, vf Value
-		for i, p := range join.Preds {
-			if p == predT {
-				vt = x.get(fr, phi.Edges[i])
-			}
-			if p == predF {
-				vf = x.get(fr, phi.Edges[i])
-			}
-		}
-		m, good := x.mergeValues(cond, vt, vf)
+	merged := make([]Value, len(phis))
+	for i := range phis {
+		m, good := x.mergeValues(cond, vt[i], vf[i])
 		if !good {
+			restore()
 			return false
 		}
-		vals = append(vals, pv{phi, m})
+		merged[i] = m
 	}
-	// merge guarded stores
 	var commits []specWrite
 	for _, cell := range order {
 		e := touched[cell]
-		vt, vf := e.t, e.f
-		if vt == nil {
-			vt = e.old
+		a1, b1 := e.t, e.f
+		if a1 == nil {
+			a1 = e.old
 		}
-		if vf == nil {
-			vf = e.old
+		if b1 == nil {
+			b1 = e.old
 		}
-		m, good := x.mergeValues(cond, vt, vf)
+		m, good := x.mergeValues(cond, a1, b1)
 		if !good {
+			restore()
 			return false
 		}
 		commits = append(commits, specWrite{cell, m})
 	}
 	for _, cm := range commits {
 		if x.spec > 0 {
-			// nested speculation: the merged store is itself a guarded store
 			x.store(cm.c, cm.old)
 		} else {
 			cm.c.V = cm.old
 		}
 	}
-	for _, p := range vals {
-		fr.env[p.phi] = p.v
+	for i, p := range phis {
+		fr.env[p] = merged[i]
 	}
 	fr.prev = a
 	fr.block = join
 	fr.skipPhis = true
+	x.pc = x.pc[:pcLen]
+	x.stack = x.stack[:stackLen]
 	x.IfConv++
+	if os.Getenv("GOSMT_DEBUGIC") != "" && join.Index <= a.Index {
+		println("ifconv loop-join", fr.fn.String(), a.Index, join.Index, len(phis), len(order))
+	}
 	return true
 }
